@@ -75,6 +75,22 @@ def r1_signature_gate(ctx):
         r.check(not alive, "verify/false=>none", "with verify false no Some(..) is reachable", "with verify false Some(..) at bb%s is reachable" % alive, where)
         alive_l = [l for l in latches if l in after]
         r.check(not alive_l, "verify/false=>stop", "a failed verification does not continue the loop", "a failed verification continues the loop (bad signature skipped)", where)
+    # every entry is verified: no path from the loop body's entry back to the header avoids the verification (an entry skipped on a special
+    # case — a key without voting power, a duplicate — would be accepted with any signature)
+    if ver:
+        entry = q.loop_entry(body, h, blocks)
+        vb = {bi for bi, t in ver}
+        seen, st = {entry}, [entry]
+        while st:
+            x = st.pop()
+            if x in vb:
+                continue
+            for s_ in body.succs(x):
+                if s_ in blocks and s_ not in seen:
+                    seen.add(s_)
+                    st.append(s_)
+        skipping = [l for l in latches if l in seen and l not in vb]
+        r.check(not skipping, "verify/every-entry", "every proof entry passes through the verification", "a proof entry can reach the next iteration without its signature being verified", body.where(ver[0][0]))
     # Some only via exhaustion: cut the edge header-switch → exit
     exits = [(x, s) for x in blocks for s in body.succs(x) if s not in blocks]
     exhaust = [(x, s) for (x, s) in exits if x in body.succs(h) or x == h]
